@@ -4,6 +4,7 @@
 # stores it under /verif/seeded/<seed-id>/ and runs the property's check against /repo with the change applied.
 set -u
 id=$1; prop=$2; src=$3
+if [ -n "$(git -C /repo status --porcelain)" ]; then echo "REFUSING: /repo has uncommitted changes (the script runs git checkout -- . on it)"; exit 3; fi
 export GOFLAGS=-mod=mod GOPROXY=off GOSUMDB=off GOTOOLCHAIN=local
 dst=/verif/seeded/$id
 mkdir -p $dst
